@@ -71,7 +71,9 @@ def run_unit(idx, timeout_s, second):
             ob.status, ob.backend, ob.time = "candidate", "not re-solved: the same clause already failed on two other paths of this unit", 0.0
         else:
             try:
-                solve.discharge(ob, timeout_s, second)
+                known = any(k.get("function") == c.target and k.get("self_cls") == c.self_cls and k.get("kind") == ob.kind
+                            and (not k.get("unit") or k["unit"] == c.name) for k in _G.get("known", []))
+                solve.discharge(ob, timeout_s, second, patient=not known)
             except Exception as e:  # pragma: no cover
                 ob.status, ob.backend = "error", f"{e}"
         if ob.status in ("sat", "candidate") and not ob.expect_sat:
@@ -138,6 +140,7 @@ def main():
         print("checker problem while loading source / contracts:\n" + traceback.format_exc())
         return 3
     _G["reg"], _G["ex"] = reg, ex
+    _G["known"] = [k for k in load_known(a.prop) if k.get("function")]
     units = [i for i, c in enumerate(reg.units) if any(p.split(".")[0] == prop for p in c.props)]
     if a.only:
         units = [i for i in units if a.only in reg.units[i].name or a.only in (reg.units[i].self_cls or "")]
@@ -148,6 +151,9 @@ def main():
     # every unit runs in a child forked from this process for that unit alone: the names generated by the symbolic executor and the
     # solver's internal term numbering then depend only on the unit, not on which units a worker happened to run before - the same
     # tree gives the same queries and the same solver behaviour on every run and every machine
+    # the bounded stand-ins are independent native processes: started now, collected after the deductive part
+    bpool = cf.ThreadPoolExecutor(max_workers=4)
+    bfuts = [(b, bpool.submit(run_bounded, b, tier, seed)) for b in call.BOUNDED.get(prop, [])]
     ctx = mp.get_context("fork")
     with ctx.Pool(processes=min(16, max(1, len(units) + len(lemmas))), maxtasksperchild=1) as pool:
         futs = [pool.apply_async(run_unit, (i, timeout_s, second)) for i in units]
@@ -232,8 +238,8 @@ def main():
 
     # bounded stand-ins and native probes registered for the property
     bounded = []
-    for b in call.BOUNDED.get(prop, []):
-        br = run_bounded(b, tier, seed)
+    for b, fut in bfuts:
+        br = fut.result()
         bounded.append(br)
         if br.get("error"):
             problems.append(f"bounded stand-in {b['name']}: {br['error']}")
@@ -377,9 +383,9 @@ def load_known(prop):
         return []
     with open(fn) as f:
         data = json.load(f)
-    # a finding tied to a verification unit is the same finding in every property whose check includes that unit;
-    # findings tied to a bounded stand-in belong to the property they were recorded for
-    return [k for k in data.get("findings", []) if k.get("status") == "open" and (k.get("property") == prop or k.get("function"))]
+    # a finding tied to a verification unit or to the exact case text of a bounded stand-in is the same finding in every property whose
+    # check includes that unit / runs that stand-in
+    return [k for k in data.get("findings", []) if k.get("status") == "open" and (k.get("property") == prop or k.get("function") or k.get("bounded"))]
 
 
 def match_known(findings, r, ob):
